@@ -235,7 +235,34 @@ func catalogue(f *ast.File) []KV {
 	return out
 }
 
-func dcs(f *ast.File) []DC {
+// findVarIn looks a package-level variable up in any of the given files; nil when it is not declared with an
+// initialiser there.
+func findVarIn(files []*ast.File, name string) ast.Expr {
+	for _, f := range files {
+		for _, d := range f.Decls {
+			gd, ok := d.(*ast.GenDecl)
+			if !ok || gd.Tok != token.VAR {
+				continue
+			}
+			for _, sp := range gd.Specs {
+				vs := sp.(*ast.ValueSpec)
+				for i, n := range vs.Names {
+					if n.Name == name && len(vs.Values) == len(vs.Names) {
+						return vs.Values[i]
+					}
+				}
+			}
+		}
+	}
+	return nil
+}
+
+// dcs: the CONTENT of the default data-centre list. Accepted forms of defaultDCList's single statement:
+// `return map[int]string{…}` and `return <ident>` where <ident> is a package-level variable of the package
+// (any file of it) initialised with such a literal (possibly through further identifiers). Which map OBJECT
+// a client gets (a fresh one or one shared with other clients) is not a fact about the content: that is
+// observed on the compiled code by the c17.two operations of `vh c17`.
+func dcs(f *ast.File, pkg []*ast.File) []DC {
 	fd := findFunc(f, "defaultDCList")
 	var out []DC
 	found := false
@@ -244,9 +271,37 @@ func dcs(f *ast.File) []DC {
 		if !ok || len(rs.Results) != 1 {
 			continue
 		}
-		cl, ok := rs.Results[0].(*ast.CompositeLit)
+		res := rs.Results[0]
+		for hops := 0; ; hops++ {
+			if pe, isParen := res.(*ast.ParenExpr); isParen {
+				res = pe.X
+				continue
+			}
+			id, isIdent := res.(*ast.Ident)
+			if !isIdent {
+				break
+			}
+			if hops > 8 {
+				die("defaultDCList: chain of identifiers too long at %s", id.Name)
+			}
+			init := findVarIn(pkg, id.Name)
+			if init == nil {
+				die("defaultDCList: returns %s, which is not a package-level variable with an initialiser", id.Name)
+			}
+			res = init
+		}
+		cl, ok := res.(*ast.CompositeLit)
 		if !ok {
-			die("defaultDCList: return value is not a composite literal")
+			die("defaultDCList: return value is not a composite literal (nor a package-level variable initialised with one)")
+		}
+		if mt, isMap := cl.Type.(*ast.MapType); !isMap {
+			die("defaultDCList: the literal is not a map literal")
+		} else {
+			k, kok := mt.Key.(*ast.Ident)
+			v, vok := mt.Value.(*ast.Ident)
+			if !kok || !vok || k.Name != "int" || v.Name != "string" {
+				die("defaultDCList: the literal is not a map[int]string")
+			}
 		}
 		found = true
 		seen := map[int64]bool{}
@@ -264,9 +319,27 @@ func dcs(f *ast.File) []DC {
 		}
 	}
 	if !found || len(fd.Body.List) != 1 {
-		die("defaultDCList: expected a single `return map[int]string{…}`")
+		die("defaultDCList: expected a single `return map[int]string{…}` (or `return <package-level variable>`)")
 	}
 	sort.Slice(out, func(i, j int) bool { return out[i].ID < out[j].ID })
+	return out
+}
+
+// pkgFiles parses every non-test .go file of the repository's root package (for package-level variables that
+// a function of utils.go may return).
+func pkgFiles(fset *token.FileSet, repo string) []*ast.File {
+	names, err := filepath.Glob(filepath.Join(repo, "*.go"))
+	if err != nil {
+		die("%v", err)
+	}
+	sort.Strings(names)
+	var out []*ast.File
+	for _, n := range names {
+		if strings.HasSuffix(n, "_test.go") {
+			continue
+		}
+		out = append(out, parse(fset, n))
+	}
 	return out
 }
 
@@ -544,7 +617,7 @@ func main() {
 	var fc Facts
 	fc.Rows = rows(ef)
 	fc.Catalogue = catalogue(ef)
-	fc.DCs = dcs(uf)
+	fc.DCs = dcs(uf, pkgFiles(fset, *repo))
 	fc.ProcTag, fc.ProcCases = procShape(fset, mf)
 
 	if *leanOut != "" {
